@@ -51,7 +51,33 @@ def generate(ck, tier):
     vlib.tlc_ok(res, "fifo budget 2")
     ck.add_tlc(res, "fifo/budget2 (pairs)")
     pairs = [s for s in sc.schedules_from(p2) if len(s) == 2]
-    return singles, pairs, res["finished"]
+    # a 3-fragment message on a partially reliable channel (ordered and unordered) next to a reliable one:
+    # single faults incl. the persistent loss of one fragment (every transmission), FORWARD-TSN faults
+    frag = []
+    for chans in (("ChansPRU",) if tier == "quick" else ("ChansPRU", "ChansPR")):
+        p3 = os.path.join(ck.dir, f"sched_{chans}_{tier}_{os.getpid()}.ndjson")
+        r3 = sc.tlc_mc(ck, "fifo_" + chans, mode="fifo", budget=1 if tier == "quick" else 2, fair=True, chans=chans,
+                       msgs="MsgsPR3", init_a="{14}", init_b="{0}", win=4, sched_sink=p3,
+                       timeout=900 if tier == "quick" else 3000)
+        vlib.tlc_ok(r3, "fifo " + chans)
+        ck.add_tlc(r3, f"fifo/{chans} 3-fragment PR message (liveness + faults)")
+        frag.append((chans == "ChansPR", sc.schedules_from(p3)))
+    if tier == "quick":
+        # the schedules are content addresses: the ordered variant of the channel runs the same ones
+        frag.append((True, frag[0][1]))
+    return singles, pairs, frag, res["finished"]
+
+
+def wl_fragments(rng, ordered, k):
+    """MsgsPR3 of the model: a 3-fragment message on the partially reliable channel 2, a message on the reliable
+    channel 1, another message on channel 2; then the phase-2 probes (relative TSNs as in the model)"""
+    kind = [dict(mr=0), dict(mr=1), dict(mr=2), dict(life=60), dict(life=300)][k % 5]
+    chans = [sc.chan(1), sc.chan(2, ordered=ordered, **kind)]
+    msgs = [{"from": "A", "sid": 2, "len": rng.choice([2345, 3000, 3516])}, {"from": "A", "sid": 1, "len": rng.choice([1, 100, 1172])},
+            {"from": "A", "sid": 2, "len": rng.choice([1, 300, 1172])},
+            {"from": "A", "sid": 1, "len": 10, "phase": 2}, {"from": "A", "sid": 2, "len": 11, "phase": 2},
+            {"from": "B", "sid": 1, "len": 10, "phase": 2}]
+    return chans, msgs
 
 
 def stretch(faults, stride):
@@ -118,7 +144,7 @@ def wl_concurrent(rng, nch, ntasks, per_task):
     return chans, msgs
 
 
-def build_scenarios(singles, pairs, tier):
+def build_scenarios(singles, pairs, frag, tier):
     rng = random.Random(vlib.seed() * 7919 + 12)
     scen = []
     # the model's own workload under every single fault (one negotiated reliable ordered channel, both directions)
@@ -138,6 +164,21 @@ def build_scenarios(singles, pairs, tier):
         if i % 3 == 0:
             s["close_chans"] = [{"side": "A", "sid": 2}, {"side": "B", "sid": 6}]
         scen.append(s)
+    k = 0
+    for ordered, scheds in frag:
+        if tier == "quick":
+            # all faults on the fragments of the 3-fragment message and on FORWARD-TSN (persistent loss
+            # included), a seeded sample of the rest
+            key = [f for f in scheds if any(x["kind"] == "dropall" or x["k"] == "FWD" or (x["k"] == "DATA" and x.get("t", 9) <= 2 and x["kind"] in ("drop", "hold")) for x in f)]
+            rest = [f for f in scheds if f not in key]
+            scheds = sc.sample(key, 70, vlib.seed() + 20) + sc.sample(rest, 15, vlib.seed() + 21)
+        for f in ([[]] + scheds):
+            # thorough: each schedule on two of the five reliability settings (rexmit 0/1/2, lifetime 60/300 ms)
+            for rep_ in range(1 if tier == "quick" else 2):
+                chans, msgs = wl_fragments(rng, ordered, k)
+                scen.append(sc.scenario(f"f{k:04d}", f, chans, msgs, deadline_ms=4000,
+                                        cfg={"init_tsn_a": WRAP_A - 1, "init_tsn_b": 7000} if k % 7 == 0 else None))
+                k += 1
     for i, f in enumerate([[]] + sc.sample(singles, n_s, vlib.seed() + 4)):
         chans, msgs = wl_sizes(rng, big=(tier == "thorough" or i % 4 == 0))
         scen.append(sc.scenario(f"z{i:03d}", stretch(f, rng.choice([1, 7, 20])), chans, msgs,
@@ -163,8 +204,8 @@ def run(tier):
     ck = vlib.Check(PID, tier)
     vlib.build_harness(["sctp"])
     design_checks(ck, tier)
-    singles, pairs, gen_finished = generate(ck, tier)
-    scen = build_scenarios(singles, pairs, tier)
+    singles, pairs, frag, gen_finished = generate(ck, tier)
+    scen = build_scenarios(singles, pairs, frag, tier)
     if tier == "thorough":
         scen.append(ssn_wrap_scenario())
     by_id = sc.run_scenarios(ck, scen, "main", nproc=8 if tier == "quick" else 12, timeout=3000)
@@ -224,6 +265,11 @@ def selftest():
     r2 = sc.tlc_mc(ck, "dev2", mode="set", msgs="MsgsBoth", deviations='{"DataBeforeEstablished"}',
                    invariants=["OpenBeforeMessage"], properties=[], timeout=300)
     ok2 = any("OpenBeforeMessage" in e for e in r2["errors"])
+    r3 = sc.tlc_mc(ck, "dev3", mode="fifo", budget=1, chans="ChansPRU", msgs="MsgsPR3", init_a="{14}", init_b="{0}", win=4,
+                   deviations='{"PartialAbandon"}', invariants=["OneToOne"], properties=[], timeout=600)
+    ok3 = any("OneToOne" in e for e in r3["errors"])
+    print("selftest: PartialAbandon model violates OneToOne:", ok3)
+    ok2 = ok2 and ok3
     print("selftest: SetupOverwrite model violates OpenOnce:", ok1)
     print("selftest: DataBeforeEstablished model violates OpenBeforeMessage:", ok2)
     rng = random.Random(1)
